@@ -29,8 +29,10 @@ def stamp():
     return {'op': 'stamp', 'args': [], 'ch': '', 'rc': 0}
 
 
-def out(ch, *reads):
-    return {'op': 'out', 'args': list(reads), 'ch': ch, 'rc': 0}
+def out(ch, *reads, tag=0):
+    """tag != 0: the content carries this number instead of the rule version, so that different
+    rule versions can produce identical bytes"""
+    return {'op': 'out', 'args': list(reads), 'ch': ch, 'rc': tag}
 
 
 def exit_(rc):
@@ -83,6 +85,8 @@ def prog_constants(p, j=1, max_hist=4, max_cmds=3, unlocked_bug=False):
     d['MaxHist'] = str(max_hist)
     d['MaxCmds'] = str(max_cmds)
     d['UnlockedBug'] = 'TRUE' if unlocked_bug else 'FALSE'
+    # SQLite's default BINARY collation orders by bytes
+    d['NameSeq'] = seq([s(x) for x in sorted(list(plain) + list(rules), key=lambda x: x.encode())])
     return d
 
 
@@ -244,6 +248,152 @@ def roles():
         'cmds': [('ifchange', ['h'], False), ('redo', ['g'], False), ('ifchange', ['g'], False)],
         'user': ['s', 'g'], 'rm': ['g'], 'doedits': ['g.do'],
     }
+
+
+def outputs(name, versions, user_t=True):
+    """one target t (depends on s) whose rule versions exercise the output channels"""
+    vers = []
+    for spec in versions:
+        ops = [ifchange('s')]
+        for ch in spec[0].split('+'):
+            if ch != 'nothing':
+                ops.append(out(ch, 's'))
+        if spec[1] != 0:
+            ops.append(exit_(spec[1]))
+        vers.append({'t': ops})
+    return {
+        'name': name,
+        'plain': ['s', 't'],
+        'rules': {'t.do': vers},
+        'init': ['s', 't.do'],
+        'cmds': [('ifchange', ['t'], False), ('redo', ['t'], False)],
+        'user': ['s'] + (['t'] if user_t else []), 'rm': ['t'], 'doedits': ['t.do'],
+    }
+
+
+def output_family():
+    return [complete(p) for p in [
+        outputs('outA', [('stdout', 0), ('both', 0), ('file', 0)]),
+        outputs('outB', [('file', 0), ('direct', 0), ('stdout', 0)]),
+        outputs('outC', [('stdout', 0), ('stdout', 3), ('nothing', 0)]),
+        outputs('outD', [('direct', 0), ('file', 7), ('file', 0)]),
+        outputs('outE', [('nothing', 0), ('stdout', -9), ('stdout', 0)]),
+        outputs('outF', [('file', 0), ('direct', 4), ('nothing', 3)]),
+        outputs('outG', [('both', 2), ('file+stdout', 0), ('stdout', 0)], user_t=False),
+    ]]
+
+
+# narrow alphabets, deeper histories ------------------------------------------------------
+def override2():
+    """hand-edit a generated target repeatedly between builds"""
+    return {
+        'name': 'override2',
+        'plain': ['s', 'g', 'h'],
+        'rules': {'g.do': [{'g': [ifchange('s'), out('stdout', 's')]}],
+                  'h.do': [{'h': [ifchange('g'), out('stdout', 'g')]}]},
+        'init': ['s', 'g.do', 'h.do'],
+        'cmds': [('ifchange', ['h'], False), ('redo', ['g'], False)],
+        'user': ['g'], 'rm': ['g'], 'doedits': [],
+        'bounds': (6, 3),
+    }
+
+
+def stamp_toggle():
+    """a target that is checksummed, then plain, then checksummed again with the old content"""
+    return {
+        'name': 'stamp_toggle',
+        'plain': ['s', 'tg', 'top'],
+        'rules': {'tg.do': [{'tg': [ifchange('s'), out('stdout', tag=71), stamp()]},
+                            {'tg': [ifchange('s'), out('stdout', tag=72)]},
+                            {'tg': [ifchange('s'), out('stdout', tag=71), stamp()]},
+                            {'tg': [ifchange('s'), out('stdout', tag=72), stamp()]}],
+                  'top.do': [{'top': [ifchange('tg'), out('stdout', 'tg')]}]},
+        'init': ['s', 'tg.do', 'top.do'],
+        'cmds': [('ifchange', ['top'], False)],
+        'user': [], 'rm': [], 'doedits': ['tg.do'],
+        'bounds': (7, 4),
+    }
+
+
+def stamped_deep():
+    """plain -> checksummed -> plain -> checksummed, the checksummed ones rebuilt in every run"""
+    return {
+        'name': 'stamped_deep',
+        'plain': ['s', 'ver', 'lib', 'mid', 'top'],
+        'rules': {'ver.do': [{'ver': [always(), out('stdout', tag=5), stamp()]}],
+                  'lib.do': [{'lib': [ifchange('ver', 's'), out('stdout', 'ver', 's')]}],
+                  'mid.do': [{'mid': [always(), ifchange('lib'), out('stdout', 'lib'), stamp()]}],
+                  'top.do': [{'top': [ifchange('mid'), out('stdout', 'mid')]}]},
+        'init': ['s', 'ver.do', 'lib.do', 'mid.do', 'top.do'],
+        'cmds': [('ifchange', ['top'], False), ('ifchange', ['lib'], False)],
+        'user': ['s'], 'rm': [], 'doedits': [],
+        'bounds': (4, 4),
+    }
+
+
+def ifcreate_deep():
+    """the watched path exists at first, is deleted and re-created; a parent on top"""
+    p = ifcreate_prog()
+    p['name'] = 'ifcreate_deep'
+    p['plain'] = ['s', 'x', 't', 'par']
+    p['rules'] = dict(p['rules'])
+    p['rules']['par.do'] = [{'par': [ifchange('t'), out('stdout', 't')]}]
+    p['init'] = ['s', 'x', 't.do', 'par.do']
+    p['cmds'] = [('ifchange', ['par'], False)]
+    p['user'] = ['x']
+    p['rm'] = ['x']
+    p['bounds'] = (6, 4)
+    return p
+
+
+def do_recreate():
+    """specific .do removed (default.do takes over) and re-created"""
+    return {
+        'name': 'do_recreate',
+        'plain': ['s', 'z'],
+        'rules': {'z.do': [{'z': [ifchange('s'), out('stdout', 's')]}],
+                  'default.do': [{'z': [ifchange('s'), out('file', 's')]}]},
+        'init': ['s', 'z.do', 'default.do'],
+        'cmds': [('ifchange', ['z'], False)],
+        'user': [], 'rm': [], 'doedits': ['z.do'],
+        'bounds': (6, 4),
+    }
+
+
+def fail_diamond():
+    """two requesters of one failing target, plus an independent one"""
+    return {
+        'name': 'fail_diamond',
+        'plain': ['s', 'A', 'P', 'Q', 'R'],
+        'rules': {'A.do': [{'A': [ifchange('s'), exit_(3)]}, {'A': [ifchange('s'), out('stdout', 's')]}],
+                  'P.do': [{'P': [ifchange('A'), out('stdout', 'A')]}],
+                  'Q.do': [{'Q': [ifchange('A'), out('stdout', 'A')]}],
+                  'R.do': [{'R': [ifchange('s'), out('stdout', 's')]}]},
+        'init': ['s', 'A.do', 'P.do', 'Q.do', 'R.do'],
+        'cmds': [('ifchange', ['P', 'Q', 'R'], True), ('ifchange', ['P', 'Q', 'R'], False), ('redo', ['Q', 'P'], True)],
+        'user': [], 'rm': [], 'doedits': ['A.do'],
+        'bounds': (4, 3),
+    }
+
+
+FAMILY_DEEP = [fail_diamond, override2, stamp_toggle, stamped_deep, ifcreate_deep, do_recreate]
+
+
+def deep_programs():
+    return [complete(f()) for f in FAMILY_DEEP]
+
+
+def with_queries(p, kinds=('ood', 'targets', 'sources')):
+    p = dict(p)
+    p['name'] = p['name'] + '_q'
+    p['cmds'] = list(p['cmds'][:2]) + [(k, [], False) for k in kinds]
+    p.pop('bounds', None)
+    return p
+
+
+def query_family():
+    return [complete(with_queries(f())) for f in
+            [chain, lambda: stamped(1, 'plain'), roles, failing, always_prog, default_prog, stamped_mid2]]
 
 
 FAMILY_QUICK = [chain, diamond, lambda: stamped(1, 'plain'), lambda: stamped(1, 'always'),
